@@ -41,7 +41,10 @@ BUILTIN_FNS = 'round trunc floor ceil sqrt sin cos tan asin acos atan cycle rand
 
 def norm_param(p):
     if isinstance(p, TimePattern):
-        return ('pattern', world.match_set(p))
+        try:
+            return ('pattern', world.match_set(p))
+        except Exception as ex:
+            return ('pattern', 'match() raises %s' % type(ex).__name__)
     if isinstance(p, (int, float, str, bool)) or p is None:
         return (type(p).__name__, p)
     return str(p)
